@@ -66,6 +66,7 @@ fn main() {
         ("drive", "builder") => automata::drive_builder(&a),
         ("replay", "dfa") => automata::replay_dfa(&a),
         ("drive", "automata") => automata::drive_automata(&a),
+        ("drive", "hopcroft") => automata::drive_hopcroft(&a),
         ("replay", "manager") => manager::replay(&a),
         ("drive", "manager") => manager::drive(&a),
         ("drive", "c01") => regex::drive_c01(&a),
